@@ -18,6 +18,7 @@ mod c06;
 mod c11;
 mod c13;
 mod c15;
+mod c12;
 
 use engine::Ctx;
 
@@ -104,6 +105,8 @@ fn main() {
         ("C13", Some(p)) => c13::replay(&ctx, p),
         ("C15", None) => c15::run(&ctx),
         ("C15", Some(p)) => c15::replay(&ctx, p),
+        ("C12", None) => c12::run(&ctx),
+        ("C12", Some(p)) => c12::replay(&ctx, p),
         ("C16", None) => c16::run(&ctx),
         ("C16", Some(p)) => c16::replay(&ctx, p),
         _ => {
